@@ -72,7 +72,11 @@ def ff_ring(c, uid):
         stmts.append(["if", rd(A("sel"), 1),
                       [["assign", reg(i), rd(A("in0"), tb, t if use_struct else None)]],
                       [["assign", reg(i), srcs[i]]]])
-      elif r < 0.25:
+      elif r < 0.15:
+        # default, then hold-override by self-assignment (last executed assignment wins)
+        stmts.append(["assign", reg(i), srcs[i]])
+        stmts.append(["if", rd(A("sel"), 1), [["assign", reg(i), R(i)]], []])
+      elif r < 0.30:
         stmts.append(["if", rd(A("sel"), 1), [["assign", reg(i), srcs[i]]], []])          # hold
       elif r < 0.45 and not use_struct:
         stmts.append(["assign", reg(i), ["const", w, c.getrandbits(w)]])                  # overwritten
